@@ -13,7 +13,13 @@ Record case := {
   c_kind : N;                      (* 0 elastic net, 1 multi-task elastic net, 2 ordinary least squares *)
   c_flags : N;                     (* bit 0: replay the solver bit-exactly; bit 1: feature columns contiguous;
                                       bit 2: budget exhausted on a fixed point of the sweep; bit 3: the fit ran in f32
-                                      (all values are f32 values widened exactly to binary64) *)
+                                      (all values are f32 values widened exactly to binary64); bit 4: the rows of the
+                                      query batch are not contiguous slices (predict's row-wise dot is then the plain
+                                      loop); bit 5: the targets were passed in a non-standard memory layout (reversed,
+                                      strided, column-major): ndarray's mean / dot legitimately sum in another order,
+                                      so the intercept is compared with the exact mean up to rounding and the
+                                      solvers are replayed from the implementation's intercept; bit 6 (multi-task, with
+                                      bit 5): the columns of the residual matrix are contiguous slices *)
   c_X : list (list float);         (* n rows of p features *)
   c_Y : list (list float);         (* n rows of t targets *)
   c_icpt : bool;
@@ -46,38 +52,71 @@ Definition approx (a b scale : float) : bool :=
 Definition to32 (x : float) : spec_float := b32_of_b64 (Prim2SF x).
 Definition vec32_eqb (a b : list spec_float) : bool := list_eqb sf_eqb a b.
 
+(* targets in a non-standard layout: |b - mean y| <= 2^-k * mean |y| in exact arithmetic (k = 44, binary32: 16), b = 0
+   without intercept *)
+Definition mean_close (f32 icpt : bool) (y : list float) (b : float) : bool :=
+  if icpt then
+    let yq := map f64_Q y in
+    let n := inject_Z (Z.of_nat (length y)) in
+    let d := qabs (qsub (qmul (f64_Q b) n) (qsum yq)) in
+    Qle_bool d (qmul (1 # (Pos.pow 2 (if f32 then 16 else 44)))%Q (qsum (map qabs yq)))
+  else PrimFloat.eqb b 0.
+
 Definition corr_enet (c : case) : N :=
   let y := col0 (c_Y c) in
   let w := col0 (c_W c) in
   let b := hd 0%float (c_b c) in
   let cc := N.testbit (c_flags c) 1 in
+  let qc := negb (N.testbit (c_flags c) 4) in
+  let ylay := N.testbit (c_flags c) 5 in
   if N.testbit (c_flags c) 3 then
     (* binary32: the same model term at B32_ops *)
     let X32 := map (map to32) (c_X c) in
     let y32 := map to32 y in
     let w32 := map to32 w in
+    let b32 := to32 b in
     (if N.testbit (c_flags c) 0 then
+       if ylay then
+         let yc := map (fun v => sub B32_ops v b32) y32 in
+         let nF := of_N B32_ops (N.of_nat (length X32)) in
+         let '(w', (g, st)) := coordinate_descent B32_ops B32X cc (to32 (c_l1r c)) (to32 (c_pen c)) nF (columns B32_ops X32) yc
+                                 (to32 (c_tol c)) (c_maxit c) in
+         flag (vec32_eqb w' w32) 1 + flag (mean_close true (c_icpt c) y b) 2
+         + flag (sf_eqb g (to32 (c_gap c))) 4 + flag (N.eqb st (c_steps c)) 8
+       else
        let f := enet_fit B32_ops B32X cc X32 y32 (c_icpt c) (to32 (c_pen c)) (to32 (c_l1r c)) (to32 (c_tol c)) (c_maxit c) in
-       flag (vec32_eqb (ef_w f) w32) 1 + flag (sf_eqb (ef_b f) (to32 b)) 2
+       flag (vec32_eqb (ef_w f) w32) 1 + flag (sf_eqb (ef_b f) b32) 2
        + flag (sf_eqb (ef_gap f) (to32 (c_gap c))) 4 + flag (N.eqb (ef_steps f) (c_steps c)) 8
-     else flag (sf_eqb (fst (compute_intercept1 B32_ops (c_icpt c) y32)) (to32 b)) 2)
-    + flag (vec32_eqb (predict1 B32_ops w32 (to32 b) (map (map to32) (c_Q c))) (map to32 (col0 (c_pred c)))) 16
+     else if ylay then flag (mean_close true (c_icpt c) y b) 2
+     else flag (sf_eqb (fst (compute_intercept1 B32_ops (c_icpt c) y32)) b32) 2)
+    + flag (vec32_eqb (map (fun q => add B32_ops (dot B32_ops qc q w32) b32) (map (map to32) (c_Q c))) (map to32 (col0 (c_pred c)))) 16
   else
   (if N.testbit (c_flags c) 0 then
+     if ylay then
+       let yc := map (fun v => sub o64 v b) y in
+       let nF := of_N o64 (N.of_nat (length (c_X c))) in
+       let '(w', (g, st)) := coordinate_descent o64 x64 cc (c_l1r c) (c_pen c) nF (columns o64 (c_X c)) yc (c_tol c) (c_maxit c) in
+       flag (vec_eqb w' w) 1 + flag (mean_close false (c_icpt c) y b) 2
+       + flag (fl_eqb g (c_gap c)) 4 + flag (N.eqb st (c_steps c)) 8
+     else
      let f := enet_fit o64 x64 cc (c_X c) y (c_icpt c) (c_pen c) (c_l1r c) (c_tol c) (c_maxit c) in
      flag (vec_eqb (ef_w f) w) 1 + flag (fl_eqb (ef_b f) b) 2
      + flag (fl_eqb (ef_gap f) (c_gap c)) 4 + flag (N.eqb (ef_steps f) (c_steps c)) 8
+   else if ylay then flag (mean_close false (c_icpt c) y b) 2
    else
      (* the intercept is reproducible without replaying the solver *)
      flag (fl_eqb (fst (compute_intercept1 o64 (c_icpt c) y)) b) 2)
-  + flag (vec_eqb (predict1 o64 w b (c_Q c)) (col0 (c_pred c))) 16.
+  + flag (vec_eqb (map (fun q => add o64 (dot o64 qc q w) b) (c_Q c)) (col0 (c_pred c))) 16.
 
 Definition corr_ols (c : case) : N :=
+  let qc := negb (N.testbit (c_flags c) 4) in
   if N.testbit (c_flags c) 3 then
-    flag (vec32_eqb (predict1 B32_ops (map to32 (col0 (c_W c))) (to32 (hd 0%float (c_b c))) (map (map to32) (c_Q c)))
+    let w32 := map to32 (col0 (c_W c)) in
+    let b32 := to32 (hd 0%float (c_b c)) in
+    flag (vec32_eqb (map (fun q => add B32_ops (dot B32_ops qc q w32) b32) (map (map to32) (c_Q c)))
                     (map to32 (col0 (c_pred c)))) 16
   else
-  flag (vec_eqb (predict1 o64 (col0 (c_W c)) (hd 0%float (c_b c)) (c_Q c)) (col0 (c_pred c))) 16.
+  flag (vec_eqb (map (fun q => add o64 (dot o64 qc q (col0 (c_W c))) (hd 0%float (c_b c))) (c_Q c)) (col0 (c_pred c))) 16.
 
 (* the stopping rule seen through the model's trace: every sweep before the last one must not have
    satisfied `gap < tol*|y|^2`; the last one must have, unless the budget ran out.  Where the branch test
@@ -106,12 +145,37 @@ Definition last_gap (tr : list (bool * gi)) : option gi :=
 
 Definition abs_rows (M : list (list float)) := map (map PrimFloat.abs) M.
 
+(* multi-task replay for targets in a non-standard memory layout (flag bit 5): the intercepts are taken from the
+   implementation (compared with the exact means up to rounding), the centred targets Y - b are formed row by row
+   (an element-wise subtraction: independent of the layout), and flag bit 6 says whether the columns of the
+   residual matrix are contiguous slices (that decides between the unrolled and the plain loop of `x_j.dot(&r)`;
+   the harness determines it by performing the same ndarray operations on the same layout) *)
+Definition mtl_replay_from (cc t1 : bool) (X Y : list (list float)) (b : list float) (icpt : bool) (pen l1r tol : float) (maxit steps : N)
+  : list (list float) * (float * list (bool * gi)) :=
+  let Yc := if icpt then map (fun row => map2 (sub o64) row b) Y else Y in
+  let nF := of_N o64 (N.of_nat (length X)) in
+  let cols := columns o64 X in
+  let norms := map (fun c => dot o64 cc c c) cols in
+  let t := ncols Y in
+  let tolY := PrimFloat.mul tol (sqsum o64 Yc) in
+  let W0 := map (fun _ => repeat 0%float t) cols in
+  let '(W, tr) := bcd_replay o64 x64 cc l1r pen nF t1 (N.to_nat steps) maxit cols norms Yc tol W0 Yc 0%N in
+  (W, (tolY, tr)).
+
+Definition means_close (c : case) : bool :=
+  Nat.eqb (length (c_b c)) (ncols (c_Y c))
+  && forallb (fun p => mean_close false (c_icpt c) (fst p) (snd p)) (combine (columns o64 (c_Y c)) (c_b c)).
+
 Definition corr_mtl (c : case) : N :=
   let cc := N.testbit (c_flags c) 1 in
   (if N.testbit (c_flags c) 0 then
      let '(b, (W, (tolY, tr))) :=
-       mtl_replay o64 x64 cc (c_X c) (c_Y c) (c_icpt c) (c_pen c) (c_l1r c) (c_tol c) (c_maxit c) (c_steps c) in
-     flag (mat_eqb0 W (c_W c)) 1 + flag (vec_eqb b (c_b c)) 2
+       if N.testbit (c_flags c) 5 then
+         (c_b c, mtl_replay_from cc (N.testbit (c_flags c) 6) (c_X c) (c_Y c) (c_b c) (c_icpt c) (c_pen c) (c_l1r c) (c_tol c)
+                   (c_maxit c) (c_steps c))
+       else mtl_replay o64 x64 cc (c_X c) (c_Y c) (c_icpt c) (c_pen c) (c_l1r c) (c_tol c) (c_maxit c) (c_steps c) in
+     flag (mat_eqb0 W (c_W c)) 1
+     + flag (if N.testbit (c_flags c) 5 then means_close c else vec_eqb b (c_b c)) 2
      + flag (match last_gap tr with
              | None => fl_eqb (PrimFloat.add 1 (c_tol c)) (c_gap c)
              | Some e => approx (gi_gap e) (c_gap c) (gi_scale e)
@@ -119,6 +183,7 @@ Definition corr_mtl (c : case) : N :=
              end) 4
      + flag (N.leb (c_steps c) (c_maxit c)
              && stop_consistent tolY (N.eqb (c_steps c) (c_maxit c)) tr) 32
+   else if N.testbit (c_flags c) 5 then flag (means_close c) 2
    else flag (vec_eqb (fst (compute_intercept2 o64 (c_icpt c) (c_Y c))) (c_b c)) 2)
   + flag (Nat.eqb (length (c_pred c)) (length (c_Q c))
           && forallb (fun t => let '(q, pr) := t in
